@@ -5,7 +5,8 @@ use std::collections::BTreeMap;
 
 #[derive(Clone, Debug)]
 pub enum Rec {
-    Da(u32, i128),
+    /// line, count, optional checksum field (`DA:<line>,<count>[,<checksum>]`)
+    Da(u32, i128, Option<String>),
     Fn(u32, String),
     Fnda(u64, String),
     /// line, block, branch, taken (None = '-')
@@ -66,12 +67,47 @@ const OTHERS: &[&str] = &[
     "TN:other",
 ];
 
+/// checksum texts for DA records: lcov writes the base64 MD5 of the source line; the reader must
+/// skip the field whatever it starts with (record keys, `e`, digits, `-`) and whatever it contains
+pub const CHECKSUMS: &[&str] = &[
+    "eAbCd",
+    "end_of_record",
+    "e",
+    "SFxyz",
+    "SF:other.c",
+    "DA:9,9",
+    "D",
+    "FN:3,g",
+    "FNDA:7,main",
+    "F",
+    "BRDA:1,0,0,1",
+    "B",
+    "0",
+    "12",
+    "7,8",
+    "-",
+    "-1",
+    ",",
+    ",,",
+    "a,b,c",
+    "",
+    "TN:",
+    " ",
+    "1B2M2Y8AsgTpgAmY7PhCfg",
+    "1B2M2Y8AsgTpgAmY7PhCfg==",
+    "F0lFZ1+Lt7MPUNAZvFL3XA",
+    "SG9PbGVMaW5lQ2hlY2tzdQ",
+    "Ds/3LPf0mBytSnhxDWVO7A",
+    "BaQmVmcmVzaC9jaGVjaw==",
+    "e3B0bCBtZDUgY2hlY2tzdQ",
+    "4vxxTEcn7pOV8yTNLn8zHw",
+];
+
 pub struct GenCfg {
     pub allow_zero_taken: bool,
     pub allow_first_branch_nonzero: bool,
     pub allow_overflow_sum: bool,
     pub allow_non_ascii: bool,
-    pub allow_fnda_before_fn: bool,
 }
 impl GenCfg {
     pub fn full() -> GenCfg {
@@ -80,9 +116,24 @@ impl GenCfg {
             allow_first_branch_nonzero: true,
             allow_overflow_sum: true,
             allow_non_ascii: true,
-            allow_fnda_before_fn: true,
         }
     }
+}
+
+/// a checksum field for about one DA record in three; a random base64 MD5 now and then
+pub fn gen_checksum(rng: &mut Rng) -> Option<String> {
+    if !rng.chance(1, 3) {
+        return None;
+    }
+    if rng.chance(1, 4) {
+        const B64: &[u8] = b"ABCDEFGHIJKLMNOPQRSTUVWXYZabcdefghijklmnopqrstuvwxyz0123456789+/";
+        let mut t: String = (0..22).map(|_| *rng.pick(B64) as char).collect();
+        if rng.chance(1, 2) {
+            t.push_str("==");
+        }
+        return Some(t);
+    }
+    Some(rng.pick(CHECKSUMS).to_string())
 }
 
 pub fn gen_section(rng: &mut Rng, cfg: &GenCfg) -> Section {
@@ -130,10 +181,11 @@ pub fn gen_section(rng: &mut Rng, cfg: &GenCfg) -> Section {
             ]),
             _ => rng.below(1000) as i128,
         };
+        let ck = gen_checksum(rng);
         if !cfg.allow_overflow_sum && c > (1i128 << 60) {
-            da.push(Rec::Da(l, 7));
+            da.push(Rec::Da(l, 7, ck));
         } else {
-            da.push(Rec::Da(l, c));
+            da.push(Rec::Da(l, c, ck));
         }
     }
     // branches
@@ -186,22 +238,17 @@ pub fn gen_section(rng: &mut Rng, cfg: &GenCfg) -> Section {
         }
         br = fixed;
     }
-    let shuffled = cfg.allow_fnda_before_fn && cfg.allow_first_branch_nonzero;
-    if shuffled {
+    if cfg.allow_first_branch_nonzero {
+        // any order: FNDA records before or after the FN record of their function
         recs.extend(fn_recs);
         recs.extend(fnda_recs);
         recs.extend(da);
         recs.extend(br);
         rng.shuffle(&mut recs);
     } else {
-        // FN before FNDA; branch order preserved; DA anywhere
+        // branch order preserved; FN/FNDA in any order; DA anywhere
         let mut groups: Vec<Vec<Rec>> = vec![fn_recs.into_iter().chain(fnda_recs).collect(), br];
-        if cfg.allow_first_branch_nonzero {
-            rng.shuffle(&mut groups[1]);
-        }
-        if cfg.allow_fnda_before_fn {
-            rng.shuffle(&mut groups[0]);
-        }
+        rng.shuffle(&mut groups[0]);
         // interleave the groups preserving each group's internal order, with DA records random
         let mut cursors = vec![0usize; groups.len()];
         loop {
@@ -258,7 +305,8 @@ pub fn render(secs: &[Section], crlf: bool) -> Vec<u8> {
         line(format!("SF:{}", s.sf));
         for r in &s.recs {
             match r {
-                Rec::Da(l, c) => line(format!("DA:{},{}", l, c)),
+                Rec::Da(l, c, None) => line(format!("DA:{},{}", l, c)),
+                Rec::Da(l, c, Some(ck)) => line(format!("DA:{},{},{}", l, c, ck)),
                 Rec::Fn(st, n) => line(format!("FN:{},{}", st, n)),
                 Rec::Fnda(c, n) => line(format!("FNDA:{},{}", c, n)),
                 Rec::Brda(l, blk, b, t) => line(format!(
@@ -280,33 +328,25 @@ pub fn render(secs: &[Section], crlf: bool) -> Vec<u8> {
     out
 }
 
-/// What the records say (property C04), computed without grcov.
+/// What the records say (property C04), computed without grcov. Order-free: a line's count is the
+/// clamped sum of its DA counts (a checksum field says nothing), a branch is taken iff some BRDA
+/// record of its (line, number) has a positive count, a function is the one its FN record declares
+/// and is executed iff SOME FNDA record of the section names it with a non-zero count – wherever
+/// that record stands relative to the FN. Defined for well-formed sections (`well_formed`).
 pub fn sem(s: &Section, branch_enabled: bool) -> CovResult {
     let mut lines: BTreeMap<u32, u128> = BTreeMap::new();
     let mut c = CovResult::default();
     for r in &s.recs {
         match r {
-            Rec::Da(l, n) => {
+            Rec::Da(l, n, _) => {
                 *lines.entry(*l).or_insert(0) += if *n < 0 { 0 } else { *n as u128 };
             }
             Rec::Fn(st, n) => {
-                c.functions.insert(
-                    n.clone(),
-                    Function {
-                        start: *st,
-                        executed: false,
-                    },
-                );
-            }
-            _ => {}
-        }
-    }
-    for r in &s.recs {
-        match r {
-            Rec::Fnda(n, name) => {
-                if let Some(f) = c.functions.get_mut(name) {
-                    f.executed |= *n != 0;
-                }
+                let executed = s
+                    .recs
+                    .iter()
+                    .any(|q| matches!(q, Rec::Fnda(k, m) if m == n && *k != 0));
+                c.functions.insert(n.clone(), Function { start: *st, executed });
             }
             Rec::Brda(l, _, b, t) if branch_enabled => {
                 let v = c.branches.entry(*l).or_default();
@@ -324,16 +364,39 @@ pub fn sem(s: &Section, branch_enabled: bool) -> CovResult {
     c
 }
 
+/// the domain of `sem` (C04 `Section.FnOK`): every function is declared once per section and every
+/// FNDA names a function declared somewhere in the same section
+pub fn well_formed(secs: &[Section]) -> bool {
+    secs.iter().all(|s| {
+        let names: Vec<&String> = s
+            .recs
+            .iter()
+            .filter_map(|r| if let Rec::Fn(_, n) = r { Some(n) } else { None })
+            .collect();
+        let unique = names.iter().enumerate().all(|(i, n)| !names[..i].contains(n));
+        unique
+            && s.recs.iter().all(|r| match r {
+                Rec::Fnda(_, n) => names.contains(&n),
+                _ => true,
+            })
+    })
+}
+
+/// an FNDA record whose function no FN record of its section declares: the reader must answer
+/// `Err(Parse)` ("FN record missing", C04_fnda_without_fn_rejected)
+pub fn has_undeclared_fnda(secs: &[Section]) -> bool {
+    secs.iter().any(|s| {
+        s.recs.iter().any(|r| match r {
+            Rec::Fnda(_, n) => !s.recs.iter().any(|q| matches!(q, Rec::Fn(_, m) if m == n)),
+            _ => false,
+        })
+    })
+}
+
 pub fn sem_all(secs: &[Section], branch_enabled: bool) -> Vec<(String, CovResult)> {
     secs.iter()
         .map(|s| (s.sf.clone(), sem(s, branch_enabled)))
         .collect()
-}
-
-/// which guard of C04_fidelity_partial a section violates (empty = inside the proved domain).
-/// The four defects repaired by fix: commits are no longer guards, only counted as features.
-pub fn guard_violations(s: &Section) -> Vec<&'static str> {
-    features(s).into_iter().filter(|f| *f == "fnda_before_fn").collect()
 }
 
 pub fn features(s: &Section) -> Vec<&'static str> {
@@ -344,13 +407,26 @@ pub fn features(s: &Section) -> Vec<&'static str> {
     let mut next_expected: BTreeMap<u32, u32> = BTreeMap::new();
     for r in &s.recs {
         match r {
-            Rec::Da(l, n) => {
+            Rec::Da(l, n, ck) => {
                 *sums.entry(*l).or_insert(0) += if *n < 0 { 0 } else { *n as u128 };
+                if let Some(ck) = ck {
+                    if !v.contains(&"da_checksum") {
+                        v.push("da_checksum");
+                    }
+                    let key_like = matches!(ck.as_bytes().first(), Some(b'e' | b'S' | b'D' | b'F' | b'B'));
+                    if key_like && !v.contains(&"da_checksum_like_record") {
+                        v.push("da_checksum_like_record");
+                    }
+                    let num_like = matches!(ck.as_bytes().first(), Some(b'0'..=b'9' | b'-'));
+                    if num_like && !v.contains(&"da_checksum_like_number") {
+                        v.push("da_checksum_like_number");
+                    }
+                }
             }
             Rec::Fn(_, n) => seen_fn.push(n),
             Rec::Fnda(_, n) => {
-                if !seen_fn.contains(&n) && !v.contains(&"fnda_before_fn") {
-                    v.push("fnda_before_fn");
+                if !seen_fn.contains(&n) && !v.contains(&"fnda_precedes_fn") {
+                    v.push("fnda_precedes_fn");
                 }
             }
             Rec::Brda(l, _, b, t) => {
